@@ -110,6 +110,8 @@ Walk walk(const cJSON* root, int flags = W_ROOT_LINKS);
 bool match_rv(const cJSON* n, const RV& v, std::string& why, bool check_int = true);   // tree == reference value (ordered)
 RV rv_from_tree(const cJSON* n);       // value view of a real tree (no validation)
 cJSON* build_tree(const RV& v);        // construct through the public Create*/AddItem* API (LIB context inside)
+cJSON* build_tree_named(const RV& v);  // same as build_tree, but every array element carries a stale member name (as after Detach from an object + AddItemToArray)
+void give_stale_name(cJSON* item, const char* name);
 cJSON* build_tree_cs(const RV& v);     // same, object members attached with cJSON_AddItemToObjectCS (keys borrowed from v, which must outlive the tree)
 std::string hex(const void* p, size_t n);
 std::string unhex(const std::string& h);
